@@ -18,6 +18,9 @@ type coreSeenT struct {
 	resolved      map[string]string // market uid -> frozen "status|winners|ts"
 	betSeen       map[string]bool
 	request       map[string]sdkmath.Int // bet uid -> requested stake (amount on the message minus the bet fee)
+	negDone       map[string]bool        // bet uid -> classified
+	negCarryAny   bool                   // some bet of the history has a part the rounding-carry finding explains
+	negOther      map[string]bool        // bet uid -> has a negative / over-taken part that the rounding-carry finding does not explain
 	settledHeight map[string]int64       // bet uid -> height of the end-block that settled it
 	grants        map[string]*liveGrant  // granter/grantee/kind -> what the harness itself granted (C09 grant_live)
 	charged       map[string]sdkmath.Int // bet uid -> what the wager message debited from the bettor
@@ -42,7 +45,7 @@ var coreSeen coreSeenT
 
 func coreReset(h int) {
 	if coreSeen.h != h || coreSeen.reported == nil {
-		coreSeen = coreSeenT{h: h, reported: map[string]bool{}, resolved: map[string]string{}, betSeen: map[string]bool{}, request: map[string]sdkmath.Int{}, charged: map[string]sdkmath.Int{}, due: map[string]*settleDue{}, settledHeight: map[string]int64{}, grants: map[string]*liveGrant{}}
+		coreSeen = coreSeenT{h: h, reported: map[string]bool{}, resolved: map[string]string{}, betSeen: map[string]bool{}, request: map[string]sdkmath.Int{}, charged: map[string]sdkmath.Int{}, due: map[string]*settleDue{}, settledHeight: map[string]int64{}, negOther: map[string]bool{}, negDone: map[string]bool{}, grants: map[string]*liveGrant{}}
 	}
 }
 
@@ -68,6 +71,7 @@ func coreMonitors(out *Out, h int, e *Env, ix *coreIx, d *coreDump, markets []*c
 		mById[m.UID] = m
 	}
 	openBet := func(b bettypes.Bet) bool { return b.Status != bettypes.Bet_STATUS_SETTLED }
+	classifyNegParts(d)
 
 	// ---- C01: custody equations (block boundaries are the stated observation points)
 	owedPool, owedBetFee, owedHouseFee := zero, zero, zero
@@ -114,7 +118,7 @@ func coreMonitors(out *Out, h int, e *Env, ix *coreIx, d *coreDump, markets []*c
 		}
 		for _, b := range d.bets {
 			for _, f := range b.BetFulfillment {
-				if f.BetAmount.IsNegative() {
+				if f.BetAmount.IsNegative() && !coreSeen.negOther[b.UID] {
 					negPart[b.MarketUID] = true
 				}
 				if openBet(b) {
@@ -136,6 +140,32 @@ func coreMonitors(out *Out, h int, e *Env, ix *coreIx, d *coreDump, markets []*c
 		for _, bk := range d.books {
 			if bk.Status == obtypes.OrderBookStatus_ORDER_BOOK_STATUS_STATUS_SETTLED {
 				settledBook[bk.UID] = true
+			}
+		}
+		// C01 "once every market is fully settled the three custody accounts are empty", market by market: nothing is
+		// held in custody any more for a market whose book the chain reports as settled
+		for _, m := range d.markets {
+			if !settledBook[m.UID] {
+				continue
+			}
+			heldPool, heldHouseFee, heldBetFee := zero, zero, zero
+			for _, p := range d.parts {
+				if p.OrderBookUID == m.UID && !p.IsSettled {
+					heldPool = heldPool.Add(p.Liquidity).Add(p.ActualProfit)
+					heldHouseFee = heldHouseFee.Add(p.Fee)
+				}
+			}
+			for _, b := range d.bets {
+				if b.MarketUID == m.UID && openBet(b) {
+					for _, f := range b.BetFulfillment {
+						heldPool = heldPool.Add(f.BetAmount)
+					}
+					heldBetFee = heldBetFee.Add(b.Fee)
+				}
+			}
+			if !heldPool.IsZero() || !heldHouseFee.IsZero() || !heldBetFee.IsZero() {
+				failOnce(out, h, "C01", "custody_empty_when_settled", "settled-market-still-holds-custody", m.UID,
+					fmt.Sprintf("market %d is reported settled but custody still holds pool %s, house fee %s, bet fee %s for it", uidN(m.UID), heldPool, heldHouseFee, heldBetFee))
 			}
 		}
 		for _, p := range d.parts {
@@ -165,8 +195,13 @@ func coreMonitors(out *Out, h int, e *Env, ix *coreIx, d *coreDump, markets []*c
 			}
 		}
 		out.Count(fmt.Sprintf("bet.parts.%d", minInt(len(b.BetFulfillment), 5)))
+		explained := !coreSeen.negOther[b.UID]
 		if neg {
-			failOnce(out, h, "C03", "parts_nonneg", "carry-accumulation", b.UID, fmt.Sprintf("bet %d has a negative backing part: %v", uidN(b.UID), b.BetFulfillment))
+			cls := "carry-accumulation"
+			if !explained {
+				cls = "negative-part-not-from-rounding-carry"
+			}
+			failOnce(out, h, "C03", "parts_nonneg", cls, b.UID, fmt.Sprintf("bet %d has a negative backing part: %v", uidN(b.UID), b.BetFulfillment))
 		}
 		if !b.Amount.Equal(sumBet) {
 			cls := "residual-profit-below-one"
@@ -183,7 +218,11 @@ func coreMonitors(out *Out, h int, e *Env, ix *coreIx, d *coreDump, markets []*c
 			continue
 		}
 		if sumBet.GT(req) {
-			failOnce(out, h, "C03", "taken_le_requested", "carry-accumulation", b.UID, fmt.Sprintf("bet %d stake taken %s exceeds requested stake %s", uidN(b.UID), sumBet, req))
+			clsT := "carry-accumulation"
+			if !explained {
+				clsT = "not-from-rounding-carry"
+			}
+			failOnce(out, h, "C03", "taken_le_requested", clsT, b.UID, fmt.Sprintf("bet %d stake taken %s exceeds requested stake %s", uidN(b.UID), sumBet, req))
 		}
 		if ov, err := sdkmath.LegacyNewDecFromStr(b.OddsValue); err == nil {
 			want := ov.MulInt(req).Sub(sdkmath.LegacyNewDecFromInt(req)).TruncateInt()
@@ -228,7 +267,7 @@ func coreMonitors(out *Out, h int, e *Env, ix *coreIx, d *coreDump, markets []*c
 							rhs = rhs.Add(f.PayoutProfit)
 						} else {
 							lhs = lhs.Add(f.BetAmount)
-							if f.BetAmount.IsNegative() {
+							if f.BetAmount.IsNegative() && !coreSeen.negOther[b.UID] {
 								negStake = true
 							}
 						}
@@ -637,6 +676,73 @@ func grantLiveCheck(out *Out, h int, e *Env, granter, grantee, kind int, amount 
 		}
 	}
 	out.Count("mon.C09.grant_live")
+}
+
+// carryExplains: are the stakes of the bet's backing parts exactly what the code as given computes from the promised
+// profits (known finding: CalculateBetAmountInt doubles the rounding carry)? Every part but the last is
+// round(profit/(odds-1) + carry) with carry' = carry + (profit/(odds-1) + carry - stake); the last part of a completely
+// matched bet takes the rest of the requested stake. Profits must all be non-negative. A negative part that does not
+// fit this recomputation has another cause and is NOT the known finding.
+func carryExplains(b bettypes.Bet, requested sdkmath.Int, haveReq bool) bool {
+	ov, err := sdkmath.LegacyNewDecFromStr(b.OddsValue)
+	if err != nil || !ov.GT(sdkmath.LegacyOneDec()) {
+		return false
+	}
+	den := ov.Sub(sdkmath.LegacyOneDec())
+	carry := sdkmath.LegacyZeroDec()
+	taken := sdkmath.ZeroInt()
+	n := len(b.BetFulfillment)
+	for i, f := range b.BetFulfillment {
+		if f.PayoutProfit.IsNegative() {
+			return false
+		}
+		expct := sdkmath.LegacyNewDecFromInt(f.PayoutProfit).Quo(den).Add(carry)
+		st := expct.RoundInt()
+		if f.BetAmount.Equal(st) {
+			carry = carry.Add(expct.Sub(sdkmath.LegacyNewDecFromInt(st)))
+		} else if i == n-1 && haveReq && f.BetAmount.Equal(requested.Sub(taken)) {
+			// the closing part of a completely matched bet: what is left of the requested stake
+		} else {
+			return false
+		}
+		taken = taken.Add(f.BetAmount)
+	}
+	return true
+}
+
+// classifyNegParts decides once per bet whether a negative (or over-taken) part is the known rounding-carry finding.
+func classifyNegParts(d *coreDump) {
+	for _, b := range d.bets {
+		if coreSeen.negDone[b.UID] {
+			continue
+		}
+		coreSeen.negDone[b.UID] = true
+		neg := false
+		sum := sdkmath.ZeroInt()
+		for _, f := range b.BetFulfillment {
+			if f.BetAmount.IsNegative() || f.PayoutProfit.IsNegative() {
+				neg = true
+			}
+			sum = sum.Add(f.BetAmount)
+		}
+		req, ok := coreSeen.request[b.UID]
+		if !neg && !(ok && sum.GT(req)) {
+			continue
+		}
+		if carryExplains(b, req, ok) {
+			coreSeen.negCarryAny = true
+		} else {
+			coreSeen.negOther[b.UID] = true
+		}
+	}
+}
+
+// negClass names the cause of a negative backing part of bet b: the known rounding-carry finding, or something else.
+func negCause(uid string) string {
+	if coreSeen.negOther[uid] {
+		return "unexplained"
+	}
+	return "carry"
 }
 
 type housePre struct {
